@@ -103,7 +103,6 @@ func newSession(stor storage.Storage, o *opt.Options) (s *session, err error) {
 
 // Close session.
 func (s *session) close() {
-	s.tops.close()
 	if s.manifest != nil {
 		s.manifest.Close()
 	}
@@ -117,6 +116,11 @@ func (s *session) close() {
 	// Close all background goroutines
 	close(s.closeC)
 	s.closeW.Wait()
+
+	// Close the table cache only after the reference loop has exited: a
+	// removal of obsolete tables that is in progress must not be cut short,
+	// or the files stay behind (and Recover would bring their entries back).
+	s.tops.close()
 }
 
 // Release session lock.
